@@ -100,6 +100,63 @@ func runC19(a *A) {
 		}
 	})
 	a.Rule("locks/receive-under-lock", 2, func() { a.ruleReceiveUnderLock() })
+	a.Rule("flow/stop-drain-counted", 1, func() {
+		// rows taken out of the input buffer by Stop are not processed: each one is counted in
+		// input_dropped_count (the receive arm of the drain select increments mInputDropped)
+		stop := a.Method("stream", "Stream", "Stop")
+		dc := a.FieldOf(S(), "dataChan")
+		dropped := a.FieldOf(S(), "mInputDropped")
+		n := 0
+		allInstrs(stop, func(in ssa.Instruction) {
+			sel, ok := in.(*ssa.Select)
+			if !ok {
+				return
+			}
+			for i, st := range sel.States {
+				if st.Dir != types.RecvOnly {
+					continue
+				}
+				if d, c := isDataChan(st.Chan, dc); !d && !c {
+					continue
+				}
+				n++
+				// the block entered when state i was chosen
+				counted := false
+				for _, r := range *sel.Referrers() {
+					ex, ok := r.(*ssa.Extract)
+					if !ok || ex.Index != 0 {
+						continue
+					}
+					for _, rr := range *ex.Referrers() {
+						bo, ok := rr.(*ssa.BinOp)
+						if !ok || bo.Op != token.EQL {
+							continue
+						}
+						k, ok := bo.Y.(*ssa.Const)
+						if !ok || k.Int64() != int64(i) {
+							continue
+						}
+						for _, rrr := range *bo.Referrers() {
+							if iff, ok := rrr.(*ssa.If); ok {
+								for _, x := range iff.Block().Succs[0].Instrs {
+									if cc := callCommon(x); cc != nil && len(cc.Args) > 0 {
+										if t := TermOf(cc.Args[0], nil); strings.Contains(t.String(), dropped.Name()) && cc.StaticCallee() != nil && cc.StaticCallee().Name() == "Inc" {
+											counted = true
+										}
+									}
+								}
+							}
+						}
+					}
+				}
+				a.Check(counted, fname(stop)+"#drain-counted", sel.Pos(), "each row Stop takes out of the input buffer is counted as dropped",
+					"Stop receives rows from the input buffer without counting them: they are neither processed nor in input_dropped_count")
+			}
+		})
+		if n == 0 {
+			a.Bad(fname(stop)+"#drain-counted", stop.Pos(), "Stop abandons the input buffer without draining it: the rows still queued are neither processed nor counted as dropped")
+		}
+	})
 	a.Rule("flow/migration", 3, func() {
 		fn := a.Method("stream", "Stream", "expandDataChannel")
 		dc := a.FieldOf(S(), "dataChan")
